@@ -290,8 +290,9 @@ def frag_heartbeat(b, rng):
     one gave; every one of them moves the deadline; another worker polling meanwhile gets nothing until the last deadline has passed"""
     b.tags.add("heartbeat")
     b.enqueue()
-    ttl = rng.choice([2 * SEC, 5 * SEC])
-    by = rng.choice([2 * SEC, 5 * SEC, 30 * SEC])
+    # (durations with a fractional-second part as well: over gRPC they travel as seconds + nanos)
+    ttl = rng.choice([2 * SEC, 5 * SEC, 2500 * MS])
+    by = rng.choice([2 * SEC, 5 * SEC, 30 * SEC, 2500 * MS, 1500 * MS, 2 * SEC + 999 * MS])
     k = b.dequeue(ttl=ttl)
     n = rng.choice([2, 3, 4])
     for _ in range(n):
